@@ -76,6 +76,8 @@ def wide_shapes():
             "c(C(l,c(%s),l),l)" % L, "O(C(l,l),o(O(%s),l),O(%s))" % (L, L), "C(l,C(l,l,O(%s)),O(l,C(%s)))" % (_cycle(w, mixed9), L),
         ]
         out += fam
+    # serialization budget beyond 255 bits with far fewer than 255 regions (the counts are Long)
+    out.append("O(%s)" % ",".join(["C(l,l,l)"] * 52))
     return out
 
 
